@@ -111,6 +111,22 @@ fn main() {
         }
         return;
     }
+    if id == "probe-hist" {
+        // check probe-hist <replay.json of a graph history case>: execute it, print the trace and the encoded text
+        let v: serde_json::Value = serde_json::from_str(&std::fs::read_to_string(&rest[0]).unwrap()).unwrap();
+        let case: vcheck::gen::ghist::GCase = serde_json::from_value(v["case"].clone()).unwrap();
+        match vcheck::gen::ghist::execute(&case) {
+            Ok(b) => {
+                println!("{}", b.trace.join("\n"));
+                match b.graph.encode(wac_graph::EncodeOptions { define_components: false, validate: false, processor: None }) {
+                    Ok(bytes) => println!("{}", wasmprinter::print_bytes(&bytes).unwrap_or_else(|e| format!("<unprintable: {e}>"))),
+                    Err(e) => println!("encode error: {e:#}"),
+                }
+            }
+            Err(_) => println!("history does not execute"),
+        }
+        return;
+    }
     if id == "probe-enc" {
         // check probe-enc <text|@file>: resolve without packages, encode, print as WAT
         let text = rest.join(" ");
